@@ -1,3 +1,374 @@
-import DepsDev.Model.Resolve.PypiHyp
+import DepsDev.Proofs.C08Final
+import DepsDev.Proofs.C08Witness
+
+/-!
+# C08 — a PyPI resolution graph is a consistent pip solution
+
+Statements are about `resolveWith U root n`: the model of `resolver.Resolve`
+(`DepsDev/Model/Resolve/Pypi.lean`) for an arbitrary universe `U` (the client's and
+provider's answers as data), root and round bound `n` (`Resolve` is the instance
+`n = Gen.C08Consts.maxRounds`), whenever it returns a graph, i.e. no error and no
+graph-level error. `S` is the final resolver state, `ids` the package → node table.
+-/
 namespace DepsDev.Props.C08
+
+open DepsDev.Resolve.Pypi DepsDev.Gen
+
+theorem resolveWith_graph {U : Universe} {root : Ver} {n : Nat} {g : Graph} {S : State} {ids : List (Nat × Ver)}
+    (h : resolveWith U root n = .graph g S ids) :
+    ∃ direct, getDependencies U root [] = .ok direct ∧ resolve U root direct n = .done S ∧
+      buildGraph S root = .ok g ids := by
+  simp only [resolveWith] at h
+  split at h <;> try (simp at h)
+  rename_i direct hd
+  split at h <;> try (simp at h)
+  rename_i S' hr
+  split at h <;> try (simp at h)
+  rename_i g' ids' hb
+  obtain ⟨rfl, rfl, rfl⟩ := h
+  exact ⟨direct, hd, hr, hb⟩
+
+/-- the state invariants hold in the final state -/
+theorem final_inv {U : Universe} {root : Ver} {n : Nat} {g : Graph} {S : State} {ids : List (Nat × Ver)}
+    (h : resolveWith U root n = .graph g S ids) : Inv U root S := by
+  obtain ⟨direct, hd, hr, _⟩ := resolveWith_graph h
+  exact resolve_inv (inv_step direct hd) hr
+
+/-! ## P1: exactly one version per package -/
+
+def C08_P1 : Prop :=
+  ∀ (U : Universe) (root : Ver) (n : Nat) (g : Graph) (S : State) (ids : List (Nat × Ver)),
+    resolveWith U root n = .graph g S ids → (g.nodes.map (·.pkg)).Nodup
+
+theorem c08_P1 : C08_P1 := by
+  intro U root n g S ids h
+  obtain ⟨_, _, _, hb⟩ := resolveWith_graph h
+  obtain ⟨wf, _, hn, _, _⟩ := buildGraph_spec hb
+  rw [hn, List.map_map]
+  have : ids.map ((fun v : Ver => v.pkg) ∘ fun e => e.2) = ids.map (·.1) :=
+    List.map_congr_left (fun e he => wf.2 e he)
+  rw [this]; exact wf.1
+
+/-! ## P5: the root version is never replaced -/
+
+/-- node 0 is the root, no other node belongs to the root's package, and the resolver
+never pins the root's package to another version -/
+def C08_P5 : Prop :=
+  ∀ (U : Universe) (root : Ver) (n : Nat) (g : Graph) (S : State) (ids : List (Nat × Ver)),
+    resolveWith U root n = .graph g S ids →
+      g.nodes.head? = some root ∧ (∀ v ∈ g.nodes, v.pkg = root.pkg → v = root) ∧
+      (∀ q ∈ S.mapping, q.pkg = root.pkg → q.id = root.id)
+
+theorem c08_P5 : C08_P5 := by
+  intro U root n g S ids h
+  obtain ⟨_, _, _, hb⟩ := resolveWith_graph h
+  obtain ⟨wf, hd, hn, _, _⟩ := buildGraph_spec hb
+  refine ⟨?_, ?_, (final_inv h).rootPin⟩
+  · rw [hn]; cases ids with
+    | nil => simp at hd
+    | cons a t => simp at hd ⊢; rw [hd]
+  · intro v hv hp
+    rw [hn] at hv
+    obtain ⟨e, he, rfl⟩ := List.mem_map.mp hv
+    have hroot : (root.pkg, root) ∈ ids := by
+      cases ids with
+      | nil => simp at hd
+      | cons a t => simp at hd; rw [hd]; exact List.mem_cons_self
+    have h1 := idsGet_of_mem wf (p := e.1) (v := e.2) (by cases e; exact he)
+    have h2 := idsGet_of_mem wf hroot
+    rw [wf.2 e he] at hp
+    rw [hp, h2] at h1
+    cases h1; rfl
+
+/-! ## P4: every node is reachable from the root -/
+
+def C08_P4 : Prop :=
+  ∀ (U : Universe) (root : Ver) (n : Nat) (g : Graph) (S : State) (ids : List (Nat × Ver)),
+    resolveWith U root n = .graph g S ids → ∀ v ∈ g.nodes, Reach g root v
+
+theorem c08_P4 : C08_P4 := by
+  intro U root n g S ids h
+  obtain ⟨_, _, _, hb⟩ := resolveWith_graph h
+  exact (buildGraph_spec hb).2.2.2.2
+
+/-! ## P3: requirements whose marker is false contribute nothing -/
+
+/-- every edge joins two nodes, leads to a node of the requirement's package, and is
+witnessed by a version `par` of the SOURCE's package that really has this requirement
+with a marker that evaluates to true for some set of extras. In particular a requirement
+whose marker is false (for every extras set) labels no edge. -/
+def C08_P3 : Prop :=
+  ∀ (U : Universe) (root : Ver) (n : Nat) (g : Graph) (S : State) (ids : List (Nat × Ver)),
+    resolveWith U root n = .graph g S ids → ∀ e ∈ g.edges,
+      e.src ∈ g.nodes ∧ e.dst ∈ g.nodes ∧ e.req.pkg = e.dst.pkg ∧
+      ∃ par ex reqs, par.pkg = e.src.pkg ∧ U.reqsOf par = some reqs ∧ e.req ∈ reqs ∧
+        evalMarker U par ex e.req = .ok true
+
+theorem c08_P3 : C08_P3 := by
+  intro U root n g S ids h e he
+  obtain ⟨_, _, _, hb⟩ := resolveWith_graph h
+  obtain ⟨wf, _, hn, hes, _⟩ := buildGraph_spec hb
+  obtain ⟨p, c, r, par, h1, h2, h3, h4, h5⟩ := (addEdges_mem S root ids ids g.edges hes e).mp he
+  have hsrc := idsGet_some_mem h4
+  obtain ⟨hpk, ex, deps, hdeps, hr⟩ := (final_inv h).info _ (getCrit_some_mem h2) _ h3
+  obtain ⟨reqs, hreqs, hiff, _⟩ := getDependencies_spec hdeps
+  refine ⟨?_, ?_, ?_, par, ex, reqs, ?_, hreqs, ?_, ?_⟩
+  · rw [hn]; exact List.mem_map.mpr ⟨_, hsrc, rfl⟩
+  · rw [hn]; exact List.mem_map.mpr ⟨_, h1, rfl⟩
+  · rw [h5]; simp only at hpk; rw [hpk]; exact (wf.2 _ h1).symm
+  · exact (wf.2 _ hsrc).symm
+  · rw [h5]; exact ((hiff r).mp hr).1
+  · rw [h5]; exact ((hiff r).mp hr).2
+
+/-- corollary in the property's words: a requirement whose marker is false for every
+set of extras labels no edge out of any version of its package -/
+theorem c08_P3_false_marker (U : Universe) (root : Ver) (n : Nat) (g : Graph) (S : State) (ids : List (Nat × Ver))
+    (h : resolveWith U root n = .graph g S ids) (e : Edge) (he : e ∈ g.edges) :
+    ¬ ∀ (par : Ver) (ex : List Nat), par.pkg = e.src.pkg → evalMarker U par ex e.req ≠ .ok true := by
+  intro hall
+  obtain ⟨_, _, _, par, ex, _, hp, _, _, hm⟩ := c08_P3 U root n g S ids h e he
+  exact hall par ex hp hm
+
+/-! ## P2: every requirement with a true marker is represented by an edge to a
+selected version that satisfies it -/
+
+/-- P2 for one run. The extras "requested of v" are the extras of v's criterion
+(`extrasOfPkg`), the target must be the pinned version of d's package, a node, and
+`Satisfies` d (pip's prerelease rule as the resolver implements it). -/
+def P2Holds (U : Universe) (root : Ver) (g : Graph) (S : State) : Prop :=
+  ∀ v ∈ g.nodes, ∀ reqs, U.reqsOf v = some reqs → ∀ d ∈ reqs,
+    evalMarker U v (extrasOfPkg S v.pkg) d = .ok true →
+    ∃ e ∈ g.edges, e.src = v ∧ e.req = d ∧ e.dst ∈ g.nodes ∧ e.dst.pkg = d.pkg ∧
+      getPin S.mapping d.pkg = some e.dst.id ∧ Satisfies U root S d e.dst
+
+/-- P2 at full strength (on the property's own domain U4): FALSE, see the refutations -/
+def C08_P2 : Prop :=
+  ∀ (U : Universe) (root : Ver) (n : Nat) (g : Graph) (S : State) (ids : List (Nat × Ver)),
+    u4 U = true → resolveWith U root n = .graph g S ids → P2Holds U root g S
+
+/-- P2 without the route hypothesis: also FALSE -/
+def C08_P2_noLate : Prop :=
+  ∀ (U : Universe) (root : Ver) (n : Nat) (g : Graph) (S : State) (ids : List (Nat × Ver)),
+    u4 U = true → resolveWith U root n = .graph g S ids → noLateExtras U S = true → P2Holds U root g S
+
+/-- P2 under the two named hypotheses: no package's requested extras grow (so as to show
+a new dependency) after it is pinned — negation = finding F-C08-extras —, and the node
+set is closed under "pinned dependency of a node" — negation = finding F-C08-route. -/
+theorem c08_P2_partial (U : Universe) (root : Ver) (n : Nat) (g : Graph) (S : State) (ids : List (Nat × Ver))
+    (hu4 : u4 U = true) (h : resolveWith U root n = .graph g S ids)
+    (hlate : noLateExtras U S = true) (hroute : routeClosed S ids = true) : P2Holds U root g S := by
+  obtain ⟨direct, hd, hr, hb⟩ := resolveWith_graph h
+  obtain ⟨inv, ci, di⟩ := resolve_inv3 hu4 hd hr
+  have hsat := resolve_done_sat hr
+  obtain ⟨wf, _, hn, _, _⟩ := buildGraph_spec hb
+  intro v hv reqs hreqs d hdr hmark
+  rw [hn] at hv
+  obtain ⟨e, he, rfl⟩ := List.mem_map.mp hv
+  have hidv : idsGet ids e.2.pkg = some e.2 := by
+    rw [wf.2 e he]; exact idsGet_of_mem wf (by cases e; exact he)
+  -- (d, v) is recorded in d's criterion
+  have viaPin : ∀ q ∈ S.mapping, pinVer q = e.2 → HasInfo S d e.2 := by
+    intro q hq hqe
+    simp only [noLateExtras, List.all_eq_true] at hlate
+    have hst := hlate q hq
+    simp only [pinStable] at hst
+    have hqv : (⟨q.pkg, q.id⟩ : Ver) = e.2 := hqe
+    rw [hqv] at hst
+    have hqp : q.pkg = e.2.pkg := by rw [← hqe]; rfl
+    rw [hqp] at hst
+    split at hst
+    · rename_i now thenDeps hnow hthen
+      obtain ⟨reqs', hreqs', hiff, _⟩ := getDependencies_spec hnow
+      rw [hreqs] at hreqs'; cases hreqs'
+      have hdnow : d ∈ now := (hiff d).mpr ⟨hdr, hmark⟩
+      have hdthen : d ∈ thenDeps := by
+        have := List.all_eq_true.mp hst d hdnow
+        simpa using this
+      have := ci q hq thenDeps (by rw [hqv]; exact hthen) d hdthen
+      rw [hqv] at this; exact this
+    · simp at hst
+  have hinfo : HasInfo S d e.2 := by
+    rcases buildGraph_nodes_pins hb e he with h1 | ⟨q, hq, h1⟩
+    · have e2 : e.2 = root := by rw [h1]
+      cases hc : getCrit S.criteria root.pkg with
+      | none =>
+        have hex : extrasOfPkg S e.2.pkg = [] := by
+          simp [extrasOfPkg, e2, hc, Criterion.empty]
+        rw [hex, e2] at hmark
+        obtain ⟨reqs', hreqs', hiff, _⟩ := getDependencies_spec hd
+        rw [e2] at hreqs
+        rw [hreqs] at hreqs'; cases hreqs'
+        have := di d ((hiff d).mpr ⟨hdr, hmark⟩)
+        rw [e2]; exact this
+      | some c =>
+        obtain ⟨w, hpin, hw⟩ := isSatisfied_spec (hsat _ (getCrit_some_mem hc))
+        have hi := inv.info _ (getCrit_some_mem hc)
+        have hcand := inv.cand _ (getCrit_some_mem hc)
+        have hwr := root_cand_eq hi hcand hw
+        obtain ⟨ex, hq⟩ := getPin_some_pinned hpin
+        exact viaPin _ hq (by rw [e2, hwr]; rfl)
+    · exact viaPin q hq (by rw [h1])
+  exact edge_of_info inv hsat hb hroute hidv hinfo
+
+/-! ### refutations of the full statements on the findings' witnesses -/
+
+/-- decidable: P2 fails at node `v` for its requirement `d` (no edge out of `v` carries
+`d`), optionally also checking the hypothesis `noLateExtras` -/
+def failsAt (U : Universe) (root : Ver) (n : Nat) (v : Ver) (d : Req) (needLate : Bool) : Bool :=
+  match resolveWith U root n with
+  | .graph g S _ =>
+    u4 U && (!needLate || noLateExtras U S) && g.nodes.contains v &&
+    (match U.reqsOf v with | some reqs => reqs.contains d | none => false) &&
+    (match evalMarker U v (extrasOfPkg S v.pkg) d with | .ok true => true | _ => false) &&
+    g.edges.all (fun e => !(e.src == v && e.req == d))
+  | _ => false
+
+theorem failsAt_refutes {U : Universe} {root : Ver} {n : Nat} {v : Ver} {d : Req} {needLate : Bool}
+    (h : failsAt U root n v d needLate = true) :
+    ∃ g S ids, u4 U = true ∧ resolveWith U root n = .graph g S ids ∧ (needLate = true → noLateExtras U S = true) ∧
+      ¬ P2Holds U root g S := by
+  simp only [failsAt] at h
+  split at h
+  · rename_i g S ids hres
+    simp only [Bool.and_eq_true, Bool.or_eq_true, Bool.not_eq_eq_eq_not, Bool.not_true] at h
+    obtain ⟨⟨⟨⟨⟨h1, h2⟩, h3⟩, h4⟩, h5⟩, h6⟩ := h
+    refine ⟨g, S, ids, h1, hres, ?_, ?_⟩
+    · intro hn; rcases h2 with h2 | h2
+      · rw [hn] at h2; simp at h2
+      · exact h2
+    · intro hp
+      split at h4
+      · rename_i reqs hreqs
+        have hv : v ∈ g.nodes := by simpa using h3
+        have hd : d ∈ reqs := by simpa using h4
+        have hm : evalMarker U v (extrasOfPkg S v.pkg) d = .ok true := by
+          split at h5
+          · assumption
+          · simp at h5
+        obtain ⟨e, he, hs, hr, _⟩ := hp v hv reqs hreqs d hd hm
+        have := List.all_eq_true.mp h6 e he
+        simp [hs, hr] at this
+      · simp at h4
+  · simp at h
+
+theorem c08_P2_false_extras : ¬ C08_P2 := by
+  intro hall
+  have hw : failsAt Witness.extrasU Witness.extrasRoot 20 ⟨0, 0⟩ Witness.extrasReqC false = true := by decide
+  obtain ⟨g, S, ids, h1, h2, _, h4⟩ := failsAt_refutes hw
+  exact h4 (hall _ _ _ g S ids h1 h2)
+
+theorem c08_P2_false_route : ¬ C08_P2_noLate := by
+  intro hall
+  have hw : failsAt Witness.routeU Witness.routeRoot 20 ⟨1, 0⟩ Witness.routeReqY true = true := by decide
+  obtain ⟨g, S, ids, h1, h2, h3, h4⟩ := failsAt_refutes hw
+  exact h4 (hall _ _ _ g S ids h1 h2 (h3 rfl))
+
+/-! ### P2 as the graph alone shows it (what the harness' oracle evaluates) -/
+
+/-- the requirements on the edges into node `w` -/
+def reqsInto (g : Graph) (w : Ver) : List Req := (g.edges.filter (fun e => e.dst == w)).map (·.req)
+
+/-- every edge's target matches the edge's requirement; the matching mode (normal or
+prerelease-inclusive) is selected by the requirements on the edges INTO the target -/
+def EdgesSatisfied (U : Universe) (root : Ver) (g : Graph) : Prop :=
+  ∀ e ∈ g.edges, ∃ mvs, getMatches U root (anyPreOf U (reqsInto g e.dst)) e.req = .ok mvs ∧ e.dst.id ∈ mvs
+
+/-- FALSE: requirements of versions that are no longer selected stay in the criterion
+(finding F-C08-stale) -/
+def C08_P2_graph : Prop :=
+  ∀ (U : Universe) (root : Ver) (n : Nat) (g : Graph) (S : State) (ids : List (Nat × Ver)),
+    u4 U = true → resolveWith U root n = .graph g S ids → EdgesSatisfied U root g
+
+/-- under `noStale` (negation = finding F-C08-stale) the requirements of a node's
+criterion are exactly those on the edges into the node, and every edge is satisfied -/
+theorem c08_P2_graph_partial (U : Universe) (root : Ver) (n : Nat) (g : Graph) (S : State) (ids : List (Nat × Ver))
+    (h : resolveWith U root n = .graph g S ids) (hns : noStale S ids = true) : EdgesSatisfied U root g := by
+  obtain ⟨direct, hd, hr, hb⟩ := resolveWith_graph h
+  have inv := final_inv h
+  have hsat := resolve_done_sat hr
+  obtain ⟨wf, _, _, hes, _⟩ := buildGraph_spec hb
+  intro e he
+  obtain ⟨p, c, r, par, h1, h2, h3, _, h5⟩ := (addEdges_mem S root ids ids g.edges hes e).mp he
+  obtain ⟨w, _, hw, hto⟩ := node_is_pin inv hsat hb h1 h2
+  have hstale : ∀ x ∈ c.info, idsGet ids x.2.pkg = some x.2 := by
+    simp only [noStale, List.all_eq_true] at hns
+    have := hns _ h1
+    simp only [h2] at this
+    intro x hx
+    have := List.all_eq_true.mp this x hx
+    simpa using this
+  have hbridge : reqsInto g e.dst = c.info.map (·.1) := by
+    have := reqsInto_aux S root ids h2 hstale ids g.edges wf.2 wf.1 (wf.2 _ h1) hes
+    simp only [reqsInto]
+    rw [this]; simp [h1]
+  obtain ⟨mvs, hm, hx⟩ := (inv.cand _ (getCrit_some_mem h2)).2 w hw r (List.mem_map.mpr ⟨(r, par), h3, rfl⟩)
+  refine ⟨mvs, ?_, ?_⟩
+  · rw [hbridge, h5]; exact hm
+  · rw [hto]; exact hx
+
+/-- decidable failure of `EdgesSatisfied` -/
+def edgeFails (U : Universe) (root : Ver) (n : Nat) : Bool :=
+  match resolveWith U root n with
+  | .graph g _ _ =>
+    u4 U && g.edges.any fun e =>
+      match getMatches U root (anyPreOf U (reqsInto g e.dst)) e.req with
+      | .ok mvs => !mvs.contains e.dst.id
+      | _ => true
+  | _ => false
+
+theorem c08_P2_graph_false_stale : ¬ C08_P2_graph := by
+  intro hall
+  have hw : edgeFails Witness.staleU Witness.staleRoot 20 = true := by decide
+  simp only [edgeFails] at hw
+  split at hw
+  · rename_i g S ids hres
+    simp only [Bool.and_eq_true, List.any_eq_true] at hw
+    obtain ⟨hu, e, he, hf⟩ := hw
+    obtain ⟨mvs, hm, hx⟩ := hall _ _ _ g S ids hu hres e he
+    rw [hm] at hf
+    simp [hx] at hf
+  · simp at hw
+
+/-! ### ties to the translated constants -/
+
+/-- `Resolve` is the instance of the theorems' round bound at the code's `maxRounds` -/
+theorem tie_maxRounds : C08Consts.maxRounds = 200000 ∧ ∀ U root, Resolve U root = resolveWith U root 200000 :=
+  ⟨rfl, fun _ _ => rfl⟩
+
+theorem tie_preference : C08Consts.ratingNone = 3 ∧ C08Consts.ratingPinned = 1 ∧ C08Consts.ratingSpecified = 2 ∧
+    C08Consts.defaultOrder = 2147483647 ∧
+    C08Consts.delayedName = [115, 101, 116, 117, 112, 116, 111, 111, 108, 115] /- "setuptools" -/ := by
+  decide
+
+theorem tie_backtrack : C08Consts.backtrackMinStates = 3 := rfl
+
+/-! ### non-vacuity: the hypotheses are satisfiable by runs that return graphs -/
+
+/-- a run that returns a graph with three nodes and satisfies every hypothesis -/
+example : ∃ g S ids, resolveWith Witness.staleU ⟨0, 0⟩ 20 = .graph g S ids ∧ u4 Witness.staleU = true ∧
+    noLateExtras Witness.staleU S = true ∧ routeClosed S ids = true ∧ noStale S ids = true ∧ g.nodes.length = 2 := by
+  refine ⟨_, _, _, rfl, ?_⟩
+  decide
+
+/-- the three witnesses return graphs (so the refutations are not vacuous), and each
+falsifies exactly the hypothesis it is named after -/
+example : (match resolveWith Witness.extrasU Witness.extrasRoot 20 with
+    | .graph _ S ids => !noLateExtras Witness.extrasU S && routeClosed S ids && noStale S ids | _ => false) = true := by decide
+example : (match resolveWith Witness.routeU Witness.routeRoot 20 with
+    | .graph _ S ids => noLateExtras Witness.routeU S && !routeClosed S ids | _ => false) = true := by decide
+example : (match resolveWith Witness.staleU Witness.staleRoot 20 with
+    | .graph _ S ids => noLateExtras Witness.staleU S && routeClosed S ids && !noStale S ids | _ => false) = true := by decide
+
 end DepsDev.Props.C08
+
+/- TIES (machine-readable; DESIGN 3.3)
+theorem: c08_P1            unfolds: resolveWith buildGraph addNodes idsGet                          gen: -
+theorem: c08_P5            unfolds: resolveWith buildGraph addNodes resolve rounds attemptToPinCriterion tryCandidates backtrack patchCriteria mergeIntoCriterion findMatches matchingVersions matchingVersionsWithPrereleases intersect  gen: C08Consts.backtrackMinStates
+theorem: c08_P4            unfolds: resolveWith buildGraph addNodes hasRouteToRoot parentsLoop addEdges edgesOf  gen: -
+theorem: c08_P3            unfolds: resolveWith buildGraph addEdges resolve rounds initCriteria mergeIntoCriterion getCriteriaToUpdate mergeDeps getDependencies filterSlice evalMarker putCrit putAll patchCriteria  gen: C08Consts.backtrackMinStates
+theorem: c08_P2_partial    unfolds: (all of the above) isSatisfied unsatisfied setPin getPin noLateExtras routeClosed u4  gen: C08Consts.backtrackMinStates
+theorem: c08_P2_graph_partial unfolds: (all of the above) noStale                                  gen: C08Consts.backtrackMinStates
+theorem: c08_P2_false_extras / c08_P2_false_route / c08_P2_graph_false_stale  unfolds: whole model on the witnesses (kernel evaluation)  gen: all of C08Consts
+theorem: tie_maxRounds tie_preference tie_backtrack  gen: C08Consts.*
+correspondence ops: `C08 resolve` (every model definition), `C08 classify` (noLateExtras, routeClosed, noStale)
+-/
